@@ -49,6 +49,8 @@ type Case struct {
 	// Own is what the handler itself does to the response before it returns:
 	// "", flush, wh (WriteHeader 202), w (Write "own:"), cancel (the request context is cancelled).
 	Own    string `json:"own,omitempty"`
+	// Env: "" (development, the default), production, test.
+	Env string `json:"env,omitempty"`
 	Method string `json:"method"`
 }
 
@@ -220,7 +222,24 @@ func (c Case) table() (status int, body string, written bool) {
 	panic("harness: shape " + c.Shape)
 }
 
+func setEnv(e string) {
+	switch e {
+	case "production":
+		flamego.SetEnv(flamego.EnvTypeProd)
+	case "test":
+		flamego.SetEnv(flamego.EnvTypeTest)
+	default:
+		flamego.SetEnv(flamego.EnvTypeDev)
+	}
+}
+
 func checkCase(c Case) (out evid.Outcome) {
+	// the table does not depend on the mode the application runs in
+	setEnv(c.Env)
+	defer setEnv("")
+	if c.Env != "" {
+		out.Classes = append(out.Classes, "env:"+c.Env)
+	}
 	var rw flamego.ResponseWriter
 	reqCtx, cancelReq := gocontext.WithCancel(gocontext.Background())
 	defer cancelReq()
@@ -461,6 +480,7 @@ func genCase(t *rapid.T) Case {
 		Method: []string{"GET", "GET", "GET", "HEAD"}[rapid.IntRange(0, 3).Draw(t, "method")],
 		Pre:    []string{"", "", "emptystr", "nilerr", "emptybytes"}[rapid.IntRange(0, 4).Draw(t, "pre")],
 		Own:    []string{"", "", "", "flush", "wh", "w", "cancel"}[rapid.IntRange(0, 6).Draw(t, "own")],
+		Env:    []string{"", "", "production", "test"}[rapid.IntRange(0, 3).Draw(t, "env")],
 	}
 	if rapid.IntRange(0, 9).Draw(t, "anycode") == 0 {
 		c.Code = rapid.IntRange(100, 999).Draw(t, "rawcode")
